@@ -1,16 +1,20 @@
-from copy import copy
+import threading
 
 from vtlengine import _verif
 
 
 class VirtualCounter:
+    """Names for intermediate (virtual) datasets and components.
+
+    The counters are per thread: concurrent API calls must not advance each other's numbering
+    (the generated names appear in error messages).
+    """
+
     _instance = None
-    dataset_count: int = 0
-    component_count: int = 0
+    _local = threading.local()
 
     def __init__(self) -> None:
-        self.dataset_count = 0
-        self.component_count = 0
+        self.reset()
 
     def __new__(cls):  # type: ignore[no-untyped-def]
         if cls._instance is None:
@@ -21,19 +25,19 @@ class VirtualCounter:
     @classmethod
     def reset(cls) -> None:
         _verif.yield_point("vcounter:reset")
-        cls.dataset_count = 0
-        cls.component_count = 0
+        cls._local.dataset_count = 0
+        cls._local.component_count = 0
 
     @classmethod
     def _new_ds_name(cls) -> str:
         _verif.yield_point("vcounter:ds")
-        cls.dataset_count += 1
-        name = f"__VDS_{copy(cls.dataset_count)}__"
-        return name
+        count = getattr(cls._local, "dataset_count", 0) + 1
+        cls._local.dataset_count = count
+        return f"__VDS_{count}__"
 
     @classmethod
     def _new_dc_name(cls) -> str:
         _verif.yield_point("vcounter:dc")
-        cls.component_count += 1
-        name = f"__VDC_{copy(cls.component_count)}__"
-        return name
+        count = getattr(cls._local, "component_count", 0) + 1
+        cls._local.component_count = count
+        return f"__VDC_{count}__"
